@@ -5,6 +5,7 @@
 #include "trace.h"
 #include <fstream>
 #include <nano/core/combinatorial.h>
+#include <nano/tuner/util.h>
 #include <sstream>
 
 using namespace nano;
@@ -69,6 +70,57 @@ int main(int argc, char* argv[])
             walk<int32_t>(counts, "int32");
             walk<uint8_t>(counts, "uint8");
             ++n;
+        }
+        vt::put(vt::J("Summary").i("vectors", n).i("case", -1));
+        return 0;
+    }
+    if (argc >= 3 && std::string(argv[1]) == "neigh")
+    {
+        // nano::local_search over every centre of small index grids: the candidate points the tuners hand to evaluate()
+        vt::Trace::get().open(argv[2]);
+        const std::vector<tensor_size_t> sizes{1, 3, 5};
+        int64_t                          n = 0;
+        for (tensor_size_t d = 1; d <= 3; ++d)
+        {
+            auto counts = make_full_tensor<tensor_size_t>(make_dims(d), 3);
+            for (auto is = combinatorial_iterator_t<tensor_size_t>{counts}; is; ++is)
+            {
+                igrid_t min_igrid(d), max_igrid(d), dims(d);
+                for (tensor_size_t k = 0; k < d; ++k)
+                {
+                    dims(k)      = sizes[static_cast<size_t>((*is)(k))];
+                    min_igrid(k) = 0;
+                    max_igrid(k) = dims(k) - 1;
+                }
+                // NB: the centres are enumerated by hand - the library's odometer does not return on the count vector (1, .., 1), DESIGN 9.8
+                int64_t total = 1;
+                for (tensor_size_t k = 0; k < d; ++k)
+                {
+                    total *= dims(k);
+                }
+                for (int64_t code = 0; code < total; ++code)
+                {
+                    igrid_t src(d);
+                    auto    r = code;
+                    for (tensor_size_t k = 0; k < d; ++k)
+                    {
+                        src(k) = r % dims(k);
+                        r /= dims(k);
+                    }
+                    for (const tensor_size_t radius : {tensor_size_t{1}, tensor_size_t{2}, tensor_size_t{4}})
+                    {
+                        const auto                        igrids = local_search(min_igrid, max_igrid, src, radius);
+                        std::vector<std::vector<int64_t>> pts;
+                        for (const auto& igrid : igrids)
+                        {
+                            pts.emplace_back(igrid.begin(), igrid.end());
+                        }
+                        vt::put(vt::J("Neigh").a("dims", std::vector<int64_t>(dims.begin(), dims.end())).a("src", std::vector<int64_t>(src.begin(), src.end()))
+                                    .i("radius", radius).aa("pts", pts));
+                        ++n;
+                    }
+                }
+            }
         }
         vt::put(vt::J("Summary").i("vectors", n).i("case", -1));
         return 0;
